@@ -26,7 +26,7 @@ def script(sc):
         op = rng.choice(pool)
         if k == 0:
             # stratified: the first operation of case i is the i-th kind (every window of len(OPS) cases covers every kind), the rest is random
-            uniq = sorted(set(pool))
+            uniq = sorted(set(pool)) + [x for x in ("pull", "rebase-i", "cherry-stash") if x in pool]     # the composite operations twice
             op = uniq[sc.index % len(uniq)]
         if op == "commit":
             sc.do_edit(); sc.do_edit(); sc.commit_all("c")
